@@ -174,21 +174,46 @@ pub fn check(bytes: &[u8], _ctx: &Ctx) -> Verdict {
             _ => [f64::INFINITY, next_up(sorted[0]), sorted[sorted.len() / 2], sorted[sorted.len() - 1]][case.picks[0].1 % 4],
         };
         if let Some(i) = bounds.iter().position(|b| *b < r) {
-            let got = match run(case.huge, r) {
+            // first a budget only slightly beyond N: a threshold that is ignored shows up here as
+            // a wrong result instead of a run that takes forever with the huge budget
+            let near = match run(n + 7, r) {
                 Ok(o) => o,
                 Err(v) => return v,
             };
-            let want = &prefix[i];
-            if got.solved.prof != want.solved.prof || got.solved.bounds != want.solved.bounds {
+            if near.solved.prof != prefix[i].solved.prof || near.solved.bounds != prefix[i].solved.bounds {
                 return Verdict::fail(
-                    "C09/wrong-stop/huge-budget",
+                    "C09/wrong-stop/larger-budget",
                     format!(
                         "{} {:?} budget {} threshold {}: bounds along the run {:?}; expected the result of budget {} (bounds {:?}), got bounds {:?}",
-                        method_name(case.method), case.params, case.huge, r, bounds, i + 1, want.solved.bounds, got.solved.bounds
+                        method_name(case.method), case.params, n + 7, r, bounds, i + 1, prefix[i].solved.bounds, near.solved.bounds
                     ),
                 );
             }
-            labels.push("huge-budget");
+            // a run that ignored the threshold would be indistinguishable from one that honoured it
+            // if the iterates no longer change; then the huge budget would only be a very long run
+            let unstopped = match run(n + 7, 0.0) {
+                Ok(o) => o,
+                Err(v) => return v,
+            };
+            if unstopped.solved.prof == prefix[i].solved.prof && unstopped.solved.bounds == prefix[i].solved.bounds {
+                labels.push("huge-budget-skipped-iterates-constant");
+            } else {
+                let got = match run(case.huge, r) {
+                    Ok(o) => o,
+                    Err(v) => return v,
+                };
+                let want = &prefix[i];
+                if got.solved.prof != want.solved.prof || got.solved.bounds != want.solved.bounds {
+                    return Verdict::fail(
+                        "C09/wrong-stop/huge-budget",
+                        format!(
+                            "{} {:?} budget {} threshold {}: bounds along the run {:?}; expected the result of budget {} (bounds {:?}), got bounds {:?}",
+                            method_name(case.method), case.params, case.huge, r, bounds, i + 1, want.solved.bounds, got.solved.bounds
+                        ),
+                    );
+                }
+                labels.push("huge-budget");
+            }
         }
     }
     // several threads: same stopping rule (compared within tolerance, thresholds away from every bound)
